@@ -18,23 +18,31 @@ Import ListNotations.
 
 (** check_fit_input returns normally exactly when: all coordinate arrays have
     one shape; every data component has that shape; weights are all None, or
-    there is one per data component, each with the SIZE of the data *)
+    there is one per data component, each with the component's shape or its
+    raveled 1-D form (a None among arrays counting as a 0-d array) *)
 Theorem C20_check_fit_input_iff : forall coords data weights,
-  check_fit_input coords data weights = true <-> fit_input_consistent_by same_size coords data weights.
+  check_fit_input coords data weights = true <-> fit_input_consistent coords data weights.
 Proof. exact check_fit_input_iff. Qed.
 Print Assumptions C20_check_fit_input_iff.
 
-(** every strictly consistent input (weights of the data's SHAPE) is accepted *)
+(** every strictly consistent input (each weight an aligned array) is accepted *)
 Theorem C20_strict_accepted : forall coords data weights,
-  fit_input_consistent_by eq coords data weights -> check_fit_input coords data weights = true.
+  fit_input_consistent_strict coords data weights -> check_fit_input coords data weights = true.
 Proof. exact strict_accepted. Qed.
 Print Assumptions C20_strict_accepted.
 
-(** the only inputs accepted beyond the strict ones: a weight array with the
-    size but not the shape of a data component (finding candidate F9) *)
+(** every accepted weight array is aligned element by element with every data
+    component: same shape or the raveled form (size-only matches are rejected) *)
+Theorem C20_accepted_weights_aligned : forall coords data weights ws dd,
+  check_fit_input coords data weights = true -> In (Some ws) weights -> In dd data -> weight_fits ws dd.
+Proof. exact accepted_weights_aligned. Qed.
+Print Assumptions C20_accepted_weights_aligned.
+
+(** the only input accepted beyond the strict specification: a None among
+    weight arrays when every data component is 0-dimensional *)
 Theorem C20_fit_input_gap : forall coords data weights,
   check_fit_input coords data weights = true -> fit_input_strict coords data weights = false ->
-  exists ws dd, In (Some ws) weights /\ In dd data /\ size ws = size dd /\ ws <> dd.
+  In None weights /\ existsb is_some weights = true /\ forall dd, In dd data -> dd = [].
 Proof. exact fit_input_gap. Qed.
 Print Assumptions C20_fit_input_gap.
 
@@ -69,9 +77,15 @@ Proof. exact grid_args_iff. Qed.
 Print Assumptions C20_grid_args_iff.
 
 Theorem C20_vectorspline_fit_iff : forall c d w,
-  vectorspline_fit c d w = true <-> fit_input_consistent_by same_size c d w /\ List.length d = 2.
+  vectorspline_fit c d w = true <-> fit_input_consistent c d w /\ List.length d = 2.
 Proof. exact vectorspline_fit_iff. Qed.
 Print Assumptions C20_vectorspline_fit_iff.
+
+(** Vector.fit: consistent input and one data component per estimator *)
+Theorem C20_vector_fit_iff : forall n c d w,
+  vector_fit n c d w = true <-> fit_input_consistent c d w /\ List.length d = n.
+Proof. exact vector_fit_iff. Qed.
+Print Assumptions C20_vector_fit_iff.
 
 (** what an [ok] verdict of the malformed stream means *)
 Theorem C20_check_case_ok : forall c obs,
@@ -187,10 +201,13 @@ Print Assumptions C20_alias_sound.
 
 (** ---------------- non-vacuity ---------------- *)
 Open Scope string_scope.
-(* the F9 gap is inhabited: (2,3) data with (3,2) weights is accepted *)
-Example C20_nv_gap : check_fit_input [[2;3];[2;3]] [[2;3]] [Some [3;2]] = true /\
-                     fit_input_strict [[2;3];[2;3]] [[2;3]] [Some [3;2]] = false.
-Proof. split; reflexivity. Qed.
+(* (2,3) data: (3,2) weights are rejected, (2,3) and raveled (6) weights accepted; a surplus component is rejected *)
+Example C20_nv_weights : check_fit_input [[2;3];[2;3]] [[2;3]] [Some [3;2]] = false /\
+                         check_fit_input [[2;3];[2;3]] [[2;3]] [Some [2;3]] = true /\
+                         check_fit_input [[2;3];[2;3]] [[2;3]] [Some [6]] = true /\
+                         vector_fit 2 [[4];[4]] [[4];[4];[4]] [None;None;None] = false /\
+                         vector_fit 2 [[4];[4]] [[4];[4]] [None;None] = true.
+Proof. repeat split; reflexivity. Qed.
 Example C20_nv_reject : check_fit_input [[4];[5]] [[4]] [None] = false /\ check_fit_input [[4];[4]] [[4]] [Some [4]] = true.
 Proof. split; reflexivity. Qed.
 (* a class in the shape of verde.Spline passes; reading a fitted attribute in fit, a
